@@ -461,6 +461,14 @@ def _classify_decl(e, r, mod):
     return None
 
 
+def generate(ctx):
+    """translator: override table, dispatch ladders and derived-constructor arguments read from the working tree with `ast`
+    (harness/opalg_translate.py) against the tables of the model (one `decide` obligation)"""
+    import opalg_translate
+
+    return opalg_translate.adapter_generate(ctx)
+
+
 def findings(ctx, model):
     scico = common.setup_scico()
     import jax.numpy as jnp
